@@ -216,6 +216,12 @@ func (r *schemaLoader) Resolve(ref *Ref, target interface{}, basePath string) er
 }
 
 func (r *schemaLoader) deref(input interface{}, parentRefs []string, basePath string) error {
+	return r.derefFrom(input, parentRefs, basePath, basePath)
+}
+
+// derefFrom follows a chain of $ref. The origin is the base path of the document this loader resolves
+// local $ref against, i.e. the document in which the first $ref of the chain was found.
+func (r *schemaLoader) derefFrom(input interface{}, parentRefs []string, basePath, origin string) error {
 	var ref *Ref
 	switch refable := input.(type) {
 	case *Schema:
@@ -251,8 +257,14 @@ func (r *schemaLoader) deref(input interface{}, parentRefs []string, basePath st
 		return nil
 	}
 
+	if normalizedBasePath != origin {
+		// this new $ref has been found in another document: it must be understood relative to that document,
+		// not to the origin. Make this explicit, since our caller only knows about the origin.
+		*ref = *normalizeRef(ref, normalizedBasePath)
+	}
+
 	parentRefs = append(parentRefs, normalizedRef.String())
-	return r.deref(input, parentRefs, normalizedBasePath)
+	return r.derefFrom(input, parentRefs, normalizedBasePath, origin)
 }
 
 func (r *schemaLoader) shouldStopOnError(err error) bool {
